@@ -156,6 +156,17 @@ Proof. exact (dec_nonneg z). Qed.
 Theorem c18_dec_neg p : dec (Zneg p) = 45%N :: dec (Zpos p).
 Proof. exact (dec_neg p). Qed.
 
+(* SHARED OPERANDS.  Callers may spread one operand slice (with spare capacity, reused, shared by
+   goroutines) into many calls.  Formatting is a function of (context, operands) only and leaves the
+   operands as they were: in every history of calls over the same operands, call k's line is
+   call_line of its own level/function/context and those operands, and the operand list is
+   unchanged afterwards. *)
+Theorem c18_format_pure ts pid args cs :
+  log_history ts pid args cs =
+  (map (fun c => let '(lvl, fn, cx) := c in
+                 call_line ts pid {| l_lvl := lvl; l_fn := fn; l_ctx := cx; l_args := args |}) cs, args).
+Proof. exact (format_pure ts pid args cs). Qed.
+
 (* THE CURRENT WRITER.  Switch(w) and Close() as steps (Model/Logger.v, wm_step: what each does to the
    levels exactly as logger.go does).  For every history of Switch / Close / logging operations:
    a logging call appends exactly its one line to the writer that is current at that time, or
@@ -211,6 +222,7 @@ Print Assumptions c18_line_format_printf.
 Print Assumptions c18_dec.
 Print Assumptions c18_nested_fresh.
 Print Assumptions c18_nested_alias.
+Print Assumptions c18_format_pure.
 Print Assumptions c18_log_goes_to_current.
 Print Assumptions c18_switch_sets_current.
 Print Assumptions c18_close_silences.
